@@ -10,7 +10,7 @@ import math
 import datetime
 import operator as _op
 from .vals import *   # noqa
-from .interp import (OutOfReach, PyRaise, TypeRef, ExcClass, ExcInst, FuncRef, ClassRef, Obj, NamedTupleClass,
+from .interp import (Prod, SliceSym, OutOfReach, PyRaise, TypeRef, ExcClass, ExcInst, FuncRef, ClassRef, Obj, NamedTupleClass,
                      BoundMethod, Closure, Builtin, ExtRef, ModRef, TDelta, HostFn, int_term, real_term,
                      real_floor, real_ceil, real_trunc, plain, KIND_TYPE, T_INT, T_FLOAT, T_BOOL, T_STR, T_LIST,
                      T_TUPLE, T_NONE, T_COMPLEX, T_DATETIME, T_DATE, T_XLERROR, T_DICT, T_OBJECT, _Star,
@@ -283,6 +283,24 @@ class Builtins(object):
         it.ctx.flags.add('ext:fnmatch.fnmatch')
         return mk_bool(fnmatch_f(sa.pay(STR), sb.pay(STR)))
 
+    def x_dateutil_parser_parse(self, it, args, kwargs):
+        """ assumed contract of dateutil.parser.parse(text): a datetime that is a function of the text AND of the current
+            date (missing fields are filled from today), or ValueError / OverflowError """
+        s = as_sym(args[0])
+        if it.ctx.narrow(s) != STR:
+            raise PyRaise('TypeError', ExcInst('TypeError'))
+        it.ctx.flags.add('ext:dateutil.parser.parse (reads the clock for missing fields)')
+        st = s.pay(STR)
+        ok = z3.Function('dateutil_ok', z3.StringSort(), z3.IntSort())
+        f = z3.Function('dateutil_us', z3.StringSort(), z3.RealSort())
+        c = it.ctx.choose([ok(st) == 0, ok(st) == 1, z3.And(ok(st) != 0, ok(st) != 1)])
+        if c == 1:
+            raise PyRaise('ValueError', ExcInst('ValueError'))
+        if c == 2:
+            raise PyRaise('OverflowError', ExcInst('OverflowError'))
+        it.ctx.assume(z3.And(f(st) >= 0, f(st) <= z3.RealVal(date_to_us(datetime.datetime(9999, 12, 31, 23, 59, 59, 999999)))))
+        return mk_date(f(st))
+
     def x_random_random(self, it, args, kwargs):
         it.ctx.flags.add('random:random.random')
         r = it.ctx.fresh(z3.RealSort(), 'rand')
@@ -525,6 +543,8 @@ class Builtins(object):
     # ------------------------------------------------------------------ builtin functions
     def b_len(self, it, args, kwargs):
         v = args[0]
+        if isinstance(v, Prod):
+            return len(v.vals)
         if isinstance(v, (list, tuple, str, dict)):
             return len(v)
         if isinstance(v, Sym):
@@ -547,6 +567,8 @@ class Builtins(object):
             return ''
         v = args[0]
         ctx = it.ctx
+        if isinstance(v, SliceSym):
+            return v.name
         if isinstance(v, Err):
             return ERR_MSGS[v.code]
         if isinstance(v, (str, int, float, bool)) or v is None:
